@@ -25,11 +25,15 @@ GSpec == MCInit /\ [][GNext]_vars
 \* extras are a function of the scenario (so that emission stays one line per scenario): rotate through the combinations
 ExtraOf(k, salt) == LET n == (k * 3 + salt) % 8 IN [z |-> n % 2 = 1, mark |-> (n \div 2) % 2 = 1, many |-> (n \div 4) % 2 = 1]
 Salt == Len(Stream(reqs)) + Cardinality(cuts)
+\* C06: in some scenarios one request has empty lines in front of its request line (outside the grammar: the Conn model does not predict what
+\* happens then; the trace specification asks that it be the same for every segmentation)
+LeadOf(k, salt) == MODE = "c06" /\ (\A j \in DOMAIN reqs : ~reqs[j].bad) /\ (k * 5 + salt) % 6 = 0
+AnyLead == \E k \in DOMAIN reqs : LeadOf(k, Salt)
 Emit == Quiescent =>
    PrintT(ToJson([mode |-> MODE,
                   reqs |-> [k \in DOMAIN reqs |-> [h |-> reqs[k].h, b |-> reqs[k].b, close |-> reqs[k].close, bad |-> reqs[k].bad,
-                                                     z |-> ExtraOf(k, Salt).z, mark |-> ExtraOf(k, Salt).mark, many |-> ExtraOf(k, Salt).many]],
+                                                     z |-> ExtraOf(k, Salt).z, mark |-> ExtraOf(k, Salt).mark, many |-> ExtraOf(k, Salt).many, lead |-> LeadOf(k, Salt)]],
                   cuts |-> SetToSortSeq(cuts, <),
-                  model |-> [resp |-> [i \in DOMAIN resp |-> IF resp[i].k = 0 THEN 0 ELSE IF reqs[resp[i].k].bad THEN 0 ELSE resp[i].k],     \* 0: an error response, as the harness classifies it
+                  model |-> [resp |-> IF AnyLead THEN <<>> ELSE [i \in DOMAIN resp |-> IF resp[i].k = 0 THEN 0 ELSE IF reqs[resp[i].k].bad THEN 0 ELSE resp[i].k],     \* 0: an error response, as the harness classifies it
                              dropped |-> dropped, fin |-> pc]]))
 =============================================================================
